@@ -3,9 +3,10 @@ package main
 import (
 	"bytes"
 	"encoding/binary"
-	"runtime"
 	"fmt"
 	"math/rand"
+	"runtime"
+	"strings"
 	"sync"
 	"sync/atomic"
 	"time"
@@ -490,7 +491,33 @@ func runStress(rep *Report, replay string) {
 	select {
 	case <-doneCh:
 	case <-time.After(30 * time.Second):
-		addV("deadlock", "workers did not terminate within 30 s after the stop signal (deadlock)")
+		// name the workers that hang, with their stacks, and touch the wedged collection no further
+		var hung []string
+		for i := range progress {
+			if spawned[i] {
+				hung = append(hung, fmt.Sprintf("w%d:%d", i, atomic.LoadInt64(&progress[i])))
+			}
+		}
+		buf := make([]byte, 1<<18)
+		n := runtime.Stack(buf, true)
+		stacks := string(buf[:n])
+		var inRepo []string
+		for _, g := range strings.Split(stacks, "\n\n") {
+			if strings.Contains(g, "kelindar/column.") && (strings.Contains(g, "sync.(*RWMutex)") || strings.Contains(g, "sync.(*Mutex)") || strings.Contains(g, "smutex")) {
+				lines := strings.Split(g, "\n")
+				for _, l := range lines {
+					if strings.Contains(l, "kelindar/column.") {
+						inRepo = append(inRepo, strings.TrimSpace(strings.Split(l, "(0x")[0]))
+						break
+					}
+				}
+			}
+		}
+		addV("deadlock", fmt.Sprintf("workers did not terminate within 30 s after the stop signal (deadlock); progress counters %s; goroutines blocked on a lock inside the library: %s", strings.Join(hung, " "), clip(strings.Join(inRepo, ", "), 600)))
+		rep.Cases = int(ops)
+		rep.DistinctNontrivial = int(ops)
+		rep.Rule = "free-running goroutines (see DESIGN.md); the run ended in a deadlock"
+		return
 	}
 	if badTag > 0 {
 		addV("torn", fmt.Sprintf("%d reads inside a callback saw a string tag that does not spell the number committed with it (a value no transaction committed)", badTag))
